@@ -2,6 +2,7 @@ package univ
 
 import (
 	"fmt"
+	"strings"
 
 	"verif/mc/spec"
 )
@@ -20,7 +21,7 @@ func XMultiSameMethod() *spec.Spec {
 
 // Extended returns the extended families (everything beyond the documented core combinations).
 func Extended(thorough bool) []*spec.Spec {
-	out := []*spec.Spec{XMultiSameMethod(), XCrossFile(), XTwoServiceFiles(), XTimestampCards(), XTimestampCardsFmt(), XEmptyOrders(), XOneofSiblings(), XSharedMethodHeader(), XQuotedHeaderTexts(), XQuotedAnnotationValues(), XForeignResponse(), XSameNamedNestedEnums()}
+	out := []*spec.Spec{XMultiSameMethod(), XCrossFile(), XTwoServiceFiles(), XTimestampCards(), XTimestampCardsFmt(), XEmptyOrders(), XOneofSiblings(), XSharedMethodHeader(), XQuotedHeaderTexts(), XQuotedAnnotationValues(), XForeignResponse(), XSameNamedNestedEnums(), XOneofVariantShapes()}
 	out = append(out, CtxSpecs()...)
 	out = append(out, RouteSpecs(thorough)...)
 	out = append(out, BindSpecs(thorough)...)
@@ -261,4 +262,35 @@ func XSameNamedNestedEnums() *spec.Spec {
 	f := &spec.File{Enums: []*spec.Enum{st("unknown", "top")}, Messages: []*spec.Message{order, invoice},
 		Services: []*spec.Service{EchoService("ShopService", "Order", "Invoice")}}
 	return withCell(spec.One("x_same_named_enums", f), "ext/unit=same_named_nested_enums", "extended", "valid", "genonly")
+}
+
+// XOneofVariantShapes: the variant-shape family — a flattened discriminated, a nested discriminated and a plain oneof, each
+// over variant messages of every shape: no fields at all, one scalar, one optional scalar, a repeated field, a map, a nested
+// message, a 64-bit integer, an enum, a timestamp and bytes. Field names are distinct so that flattened children do not collide.
+func XOneofVariantShapes() *spec.Spec {
+	variants := []*spec.Message{
+		spec.M("VEmpty"),
+		spec.M("VScalar", spec.F("text", "string")),
+		spec.M("VOptional", spec.F("count", "int32").Opt()),
+		spec.M("VRepeated", spec.F("tags", "string").Rep()),
+		spec.M("VMap", spec.F("attrs", "string").Map()),
+		spec.M("VNested", spec.Msg("inner", "VScalar")),
+		spec.M("VBig", spec.F("total", "int64")),
+		spec.M("VEnum", spec.En("shade", "Shade")),
+		spec.M("VTime", spec.Msg("at", ".google.protobuf.Timestamp")),
+		spec.M("VBytes", spec.F("blob", "bytes")),
+	}
+	members := func() []*spec.Field {
+		out := []*spec.Field{spec.F("id", "string")}
+		for _, v := range variants {
+			out = append(out, spec.Msg(strings.ToLower(v.Name[1:]), v.Name).In("shape"))
+		}
+		return out
+	}
+	f := &spec.File{Enums: []*spec.Enum{spec.E("Shade", "SHADE_UNSPECIFIED", "SHADE_DARK", "SHADE_LIGHT")}, Messages: append(variants,
+		spec.M("FlatShapes", members()...).WithOneof(&spec.Oneof{Name: "shape", Config: true, Disc: "type", Flatten: true}),
+		spec.M("NestedShapes", members()...).WithOneof(&spec.Oneof{Name: "shape", Config: true, Disc: "kind"}),
+		spec.M("PlainShapes", members()...).WithOneof(&spec.Oneof{Name: "shape"}),
+	), Services: []*spec.Service{EchoService("VariantShapeService", "FlatShapes", "NestedShapes", "PlainShapes")}}
+	return withCell(spec.One("x_oneof_variant_shapes", f), "ext/unit=oneof_variant_shapes", "extended", "valid", "codec")
 }
